@@ -3,14 +3,15 @@ import Model.Basic
 set_option maxRecDepth 8000
 /-! Tie (C13-C16): structural facts of `dag.Run` the scheduler model relies on. -/
 namespace Tie
-/-- completions are handed over on an unbuffered channel (a `recv` happens after the matching send) -/
+/-- completions are handed over on an unbuffered channel (a `recv` happens after the matching send): every channel
+made in the package whose element type is not `struct{}` has no capacity -/
 example : Generated.doneChanCap = "0" := by decide
-/-- the semaphore has `maxParallel` slots -/
+/-- the semaphore (the channels of `struct{}`) has `maxParallel` slots -/
 example : Generated.semaphoreCap = "g.maxParallel" := by decide
-/-- the scheduler status is written only by the scheduler goroutine (`Run`, `skipParents` called from it):
-which function moves a vertex to which status -/
-example : Generated.statusWrites = ["Run: runDone", "Run: runInProgress", "skipParents: runSkip"] := by decide
-/-- some goroutine started by `Run` (the task goroutine) acquires a semaphore slot first and releases it in a
+/-- the scheduler status is written only by the scheduler goroutine — no write sits in a goroutine body (a function
+literal under `go`, or a function a `go` statement calls) — and exactly these statuses are written -/
+example : Generated.statusWrites = ["scheduler: runDone", "scheduler: runInProgress", "scheduler: runSkip"] := by decide
+/-- some goroutine of the package (the task goroutine) acquires a semaphore slot first and releases it in a
 deferred call -/
 example : (Generated.goroutineHeads.any fun h =>
     GoModel.hasPrefix (GoModel.b h) (GoModel.b "send semaphore; defer func{...}")) = true := by decide
